@@ -1181,6 +1181,9 @@ impl<T: Transport, Env: UtpEnvironment> VirtualSocket<T, Env> {
             .on_payload_delivered(result.on_ack_result.max_acked_payload_size);
         self.congestion_controller
             .set_mss(self.segment_sizes.mss() as usize);
+        if let Some(mss) = NonZeroUsize::new(self.segment_sizes.mss() as usize) {
+            self.user_rx.set_max_incoming_payload(mss);
+        }
 
         // Update RTT and RTO if not in recovery. In recovery we get very delayed info
         // for packets beyond sack depth.
@@ -1249,6 +1252,9 @@ impl<T: Transport, Env: UtpEnvironment> VirtualSocket<T, Env> {
                 self.segment_sizes.on_payload_delivered(msg.payload().len());
                 self.congestion_controller
                     .set_mss(self.segment_sizes.mss() as usize);
+                if let Some(mss) = NonZeroUsize::new(self.segment_sizes.mss() as usize) {
+                    self.user_rx.set_max_incoming_payload(mss);
+                }
 
                 match self.user_rx.add_remove(cx, msg, offset as usize)? {
                     AssemblerAddRemoveResult::Consumed {
